@@ -37,7 +37,8 @@ Base2 == World([P0 |-> Pt(0, NT), P1 |-> Pt(1, T("-", "x", "-")),
                 R1 |-> Re(<<"W1", "P0">>, T("x", "-", "-")),
                 C1 |-> Co(<<"P0", "W1">>, T("-", "-", "x"))])
 Cand2 == { C("W1", Pa(<<"P1", "P0">>, T("y", "-", "-"))),
-           C("R1", Re(<<"P1">>, T("-", "-", "y"))) }
+           C("R1", Re(<<"P1">>, T("-", "-", "y"))),
+           C("P0", Pt(0, T("-", "-", "x"))) }    \* re-adding a point copies the base features that reference it
 
 \* ---- scenario 3: geometry edits that must be accepted or rejected depending on the current world (C13, C37, C15, C38)
 Base3 == World([P0 |-> Pt(0, T("x", "-", "-")), P1 |-> Pt(1, NT), P2 |-> Pt(2, NT),
@@ -47,6 +48,7 @@ Base3 == World([P0 |-> Pt(0, T("x", "-", "-")), P1 |-> Pt(1, NT), P2 |-> Pt(2, N
 Cand3 == { C("W1", Pa(<<"P0", "P1">>, NT)),                          \* opens the path under A1: reject
            C("W1", Pa(<<"P0", "P2", "P1", "P0">>, NT)),              \* clockwise: reject
            C("W1", Pa(<<"P1", "P2", "P0", "P1">>, T("y", "-", "-"))),\* rotated, still ccw: accept
+           C("W1", Pa(<<"P0", "P1", "P2", "P3">>, NT)),              \* same length and origin but open: reject (A1)
            C("P1", Pt(3, NT)),                                       \* moves P1: loop 0,3,2 is clockwise unless P2 moved to 4
            C("P1", Pt(1, T("-", "-", "y"))),                         \* same place, new tag: accept
            C("P2", Pt(4, NT)),                                       \* loop 0,1,4 stays ccw: accept (0,3,4 too)
@@ -110,6 +112,7 @@ Cand8 == { C("A1", Ar(<< <<"W1">>, <<"W3">> >>, T("-", "-", "x"))),      \* grow
            C("A1", Ar(<< <<"W3">> >>, T("y", "-", "-"))),                 \* same size, other path
            C("R1", Re(<<"A1", "P0", "P1", "W1">>, T("-", "x", "-"))),     \* grows by two members
            C("R1", Re(<<"W3">>, NT)),                                     \* shrinks
+           C("R1", Re(<<"C1">>, T("x", "-", "-"))),                       \* a relation reached only through a collection
            C("P0", Pt(0, T("x", "x", "y"))),                              \* more tags
            C("P0", Pt(0, NT)),                                            \* fewer tags
            C("C1", Co(<<"P0", "W1">>, NT)),                               \* new
